@@ -962,6 +962,7 @@ def run(ck: Check) -> None:
     ck.c17_obs = []
     me = sys.modules[__name__]
     guard.campaign(ck, c17_order.campaign_family, me, quick)
+    guard.campaign(ck, c17_order.campaign_all_orders, me, quick)
     guard.campaign(ck, campaign_e2e, 150 if quick else 1200, 2)
     guard.campaign(ck, c17_order.campaign_order, me)
     ck.c17_obs = []
